@@ -70,6 +70,24 @@ Fixpoint has_seqis_false (c : cond) : bool :=
 Definition sequence_pattern_str (c : cond) (o : obj) : bool :=
   has_seqis_false c && sub_art (class_of o) CStr.
 
+(* ---- clause assert_promotion --------------------------------------------
+   ConstraintType.is_instance / is_value (assert_is_instance, assert_is) compare classes with the
+   real issubclass / isinstance, without the int -> float -> complex promotion that membership in
+   a declared type has: x: float, assert_is_instance(x, int) leaves Never although 1 passes *)
+Fixpoint has_assert (c : cond) : bool :=
+  match c with
+  | CAssertInst _ | CAssertIs _ => true
+  | CNot c => has_assert c
+  | CPAnd a b => has_assert a || has_assert b
+  | CAnd a b => has_assert a || has_assert b
+  | COr a b => has_assert a || has_assert b
+  | _ => false
+  end.
+Definition numeric_cls (k : cls) : bool := sub k CInt || sub k CFloat.
+Definition numeric_like (o : obj) : bool :=
+  match o with OClass k => numeric_cls k | _ => numeric_cls (class_of o) end.
+Definition assert_promotion (c : cond) (o : obj) : bool := has_assert c && numeric_like o.
+
 (* patterns of TypeIs: the two patma pattern values are built only by the sequence / mapping
    leaves; list[...] / dict[...] patterns are outside the fragment (two list types with different
    arguments share the empty list but is_overlapping finds them disjoint) *)
@@ -94,6 +112,7 @@ Definition eq_compatible (o l : obj) : bool := implb (py_eq o l) (obj_eqb o l).
 Fixpoint cond_ok (c : cond) (o : obj) : bool :=
   match c with
   | CIs l => singleton l && wf_obj l
+  | CAssertIs l => singleton l && wf_obj l
   | CEq l => atomic l && wf_obj l && eq_compatible o l
   | CIn ls => forallb (fun l => atomic l && wf_obj l && eq_compatible o l) ls
   | CIsInstance cs => negb (match cs with [] => true | _ => false end)
@@ -111,7 +130,7 @@ Fixpoint cond_ok (c : cond) (o : obj) : bool :=
 Definition c02_guard (c : cond) (o : obj) : bool :=
   wf_obj o && cond_ok c o
   && negb (multiple_inheritance o) && negb (subclass_bool o) && negb (promotion_negative c o)
-  && negb (enum_class_object o) && negb (sequence_pattern_str c o).
+  && negb (enum_class_object o) && negb (sequence_pattern_str c o) && negb (assert_promotion c o).
 
 (* ---- membership modulo the MinLen/MaxLen annotations (for "never widens") ---- *)
 Definition bmember_s (o : obj) (s : sval) : bool := member_b o (sbase s).
